@@ -41,7 +41,48 @@ bool CmpNodePos::operator() (const Node* u, const Node* v) const
         return u->pos < v->pos;
     }
     
-    // Use the pointers to the base objects to differentiate them.
+    // Nodes at the same position are differentiated by the kind of their
+    // base object (obstacle, connector endpoint, or segment) and then by
+    // properties of these objects, rather than by pointer value, so the
+    // order does not depend on where the objects were allocated.
+    int uKind = (u->v) ? 0 : ((u->c) ? 1 : 2);
+    int vKind = (v->v) ? 0 : ((v->c) ? 1 : 2);
+    if (uKind != vKind)
+    {
+        return uKind < vKind;
+    }
+    if (u->v)
+    {
+        if (u->v->id() != v->v->id())
+        {
+            return u->v->id() < v->v->id();
+        }
+    }
+    else if (u->c)
+    {
+        if (u->c->id != v->c->id)
+        {
+            return u->c->id < v->c->id;
+        }
+    }
+    else if (u->ss->dimension == v->ss->dimension)
+    {
+        size_t altDim = (u->ss->dimension + 1) % 2;
+        double uLow = static_cast<const ShiftSegment *> (u->ss)->lowPoint()[altDim];
+        double vLow = static_cast<const ShiftSegment *> (v->ss)->lowPoint()[altDim];
+        if (uLow != vLow)
+        {
+            return uLow < vLow;
+        }
+        double uHigh = static_cast<const ShiftSegment *> (u->ss)->highPoint()[altDim];
+        double vHigh = static_cast<const ShiftSegment *> (v->ss)->highPoint()[altDim];
+        if (uHigh != vHigh)
+        {
+            return uHigh < vHigh;
+        }
+    }
+
+    // As a last resort, use the pointers to the base objects.
     void *up = (u->v) ? (void *) u->v : 
             ((u->c) ? (void *) u->c : (void *) u->ss);
     void *vp = (v->v) ? (void *) v->v : 
